@@ -8,4 +8,5 @@ cd coq
 coq_makefile -f _CoqProject -o Makefile.coq > /dev/null
 timeout 3000 make -f Makefile.coq -j16
 bash extract/build.sh
+bash extract/build_py.sh
 echo "setup done"
